@@ -1,5 +1,5 @@
 #!/bin/sh
-# usage: tools/confirm_seeded.sh <id>   (expects /tmp/mut_<id>.patch.diff and a zz_demo_test.go somewhere in /tmp/mut_<id>)
+# usage: tools/confirm_seeded.sh <id>   (expects /tmp/${SEED_PREFIX:-mut}_<id>.patch.diff and a zz_demo_test.go somewhere in /tmp/${SEED_PREFIX:-mut}_<id>)
 # Confirms independently, in a fresh scratch worktree: patch applies, build + full suite pass with it,
 # demo fails with it and passes without it. Removes the scratch worktree afterwards.
 id=$1
@@ -8,17 +8,17 @@ w=/tmp/confirm_$id
 git -C /repo worktree remove --force $w >/dev/null 2>&1
 git -C /repo worktree add -q $w HEAD || exit 2
 trap 'git -C /repo worktree remove --force '$w' >/dev/null 2>&1' EXIT
-demo=$(cd /tmp/mut_$id && find . -name zz_demo_test.go | head -1)
+demo=$(cd /tmp/${SEED_PREFIX:-mut}_$id && find . -name zz_demo_test.go | head -1)
 [ -n "$demo" ] || { echo "no demo found"; exit 2; }
 cd $w
-git apply /tmp/mut_$id.patch.diff || { echo "PATCH-DOES-NOT-APPLY"; exit 1; }
+git apply /tmp/${SEED_PREFIX:-mut}_$id.patch.diff || { echo "PATCH-DOES-NOT-APPLY"; exit 1; }
 go build ./... || { echo "BUILD-FAILS"; exit 1; }
 if go test -vet=off -count=1 ./... > /tmp/confirm_$id.suite.log 2>&1; then echo "suite: PASS with change"; else echo "suite: FAILS with change"; tail -5 /tmp/confirm_$id.suite.log; exit 1; fi
-cp /tmp/mut_$id/$demo $w/$demo
+cp /tmp/${SEED_PREFIX:-mut}_$id/$demo $w/$demo
 d=$(dirname $demo)
 extra=""
-grep -q -- "-race" /tmp/mut_$id.meta.txt 2>/dev/null && extra="-race"
+grep -q -- "-race" /tmp/${SEED_PREFIX:-mut}_$id.meta.txt 2>/dev/null && extra="-race"
 if timeout 300 go test $extra -vet=off -count=1 -run TestSeededDemo ./$d > /tmp/confirm_$id.with.log 2>&1; then echo "demo with change: PASS (unexpected)"; exit 1; else echo "demo with change: FAIL (expected)"; fi
-git apply -R /tmp/mut_$id.patch.diff
+git apply -R /tmp/${SEED_PREFIX:-mut}_$id.patch.diff
 if timeout 300 go test $extra -vet=off -count=1 -run TestSeededDemo ./$d > /tmp/confirm_$id.without.log 2>&1; then echo "demo without change: PASS (expected)"; else echo "demo without change: FAIL (unexpected)"; tail -5 /tmp/confirm_$id.without.log; exit 1; fi
 echo "CONFIRMED $id demo=$demo"
